@@ -559,6 +559,13 @@ type queueDelivery struct {
 }
 
 func (qd *queueDelivery) AddRcpt(ctx context.Context, rcptTo string, _ smtp.RcptOptions) error {
+	// Delivery state (tries counter, last error) is kept per address, so
+	// a recipient specified twice must not be tracked twice.
+	for _, rcpt := range qd.meta.To {
+		if rcpt == rcptTo {
+			return nil
+		}
+	}
 	qd.meta.To = append(qd.meta.To, rcptTo)
 	return nil
 }
